@@ -231,7 +231,7 @@ Inductive req :=
 | QLookup (parent : N) (n : name)
 | QForget (inode count : N)
 | QGetattr (inode : N) (handle : option N)
-| QSetattr (inode : N) (handle : option N) (valid mode uid gid size : N)
+| QSetattr (inode : N) (handle : option N) (valid mode uid gid size : N) (atime ansec mtime mnsec : N)
 | QMkdir (parent : N) (n : name) (mode umask uid gid : N)
 | QMknod (parent : N) (n : name) (mode rdev umask uid gid : N)
 | QCreate (parent : N) (n : name) (mode umask flags fuse_flags uid gid : N)
@@ -260,6 +260,10 @@ Inductive req :=
 
 Definition FATTR_MODE := 1. Definition FATTR_UID := 2. Definition FATTR_GID := 4. Definition FATTR_SIZE := 8.
 Definition FATTR_ATIME := 16. Definition FATTR_MTIME := 32. Definition FATTR_KILL_SUIDGID := 2048.
+Definition FATTR_ATIME_NOW := 128. Definition FATTR_MTIME_NOW := 256.
+(* the timespec pair setattr hands to futimens/utimensat *)
+Definition time_spec (valid now_bit set_bit sec nsec : N) : tv :=
+  if has valid now_bit then TNow else if has valid set_bit then TSet sec nsec else TKeep.
 
 Definition create_opts (cf : cfg) : N :=
   if (c_cache cf =? 0) || (c_cache cf =? 1) then 1 else if c_cache cf =? 3 then 2 else 0.
@@ -323,7 +327,7 @@ Definition pstep (cf : cfg) (s : pstate) (q : req) : reply * option N * option N
       | Ok a => noslot (RpAttr a) s
       | Err e => noslot (RpErr e) s
       end
-  | QSetattr inode handle valid mode uid gid size =>
+  | QSetattr inode handle valid mode uid gid size atime ansec mtime mnsec =>
       match assoc inode (p_inodes s) with
       | None => noslot (RpErr EBADF) s
       | Some d =>
@@ -356,10 +360,20 @@ Definition pstep (cf : cfg) (s : pstate) (q : req) : reply * option N * option N
               match r3 with
               | Err e => noslot (RpErr e) s3
               | Ok _ =>
-                  (* utimens: time stamps are not modelled *)
-                  match do_getattr cf s3 inode handle with
-                  | Ok a => noslot (RpAttr a) s3
-                  | Err e => noslot (RpErr e) s3
+                  (* if valid.intersects(ATIME | MTIME): futimens(handle) / utimensat(proc_self_fd, "N") *)
+                  let '(r4, s4) := if has valid FATTR_ATIME || has valid FATTR_MTIME
+                                   then let (r, h') := sys_utimens (p_host s3) target
+                                                         (time_spec valid FATTR_ATIME_NOW FATTR_ATIME atime ansec)
+                                                         (time_spec valid FATTR_MTIME_NOW FATTR_MTIME mtime mnsec) in
+                                        (r, with_host s3 h')
+                                   else (Ok tt, s3) in
+                  match r4 with
+                  | Err e => noslot (RpErr e) s4
+                  | Ok _ =>
+                      match do_getattr cf s4 inode handle with
+                      | Ok a => noslot (RpAttr a) s4
+                      | Err e => noslot (RpErr e) s4
+                      end
                   end
               end
             end
@@ -580,7 +594,8 @@ Definition pstep (cf : cfg) (s : pstate) (q : req) : reply * option N * option N
       match get_data cf (c_no_open cf) s handle inode O_RDWR with
       | (Err e, s1) => noslot (RpErr e) s1
       | (Ok (_, hd), s1) =>
-          if negb (acc_w (hd_acc hd)) then noslot (RpErr EBADF) s1
+          if l =? 0 then noslot (RpErr EINVAL) s1      (* vfs_fallocate: len <= 0 is refused before the access mode is looked at *)
+          else if negb (acc_w (hd_acc hd)) then noslot (RpErr EBADF) s1
           else match sys_fallocate (p_creds s1) (p_host s1) (hd_host hd) mode off l with
                | (Err e, h') => noslot (RpErr e) (with_host s1 h')
                | (Ok _, h') => noslot RpOk (with_host s1 h')
@@ -643,7 +658,7 @@ Inductive sreq :=
 | SLookup (p : ref) (n : name)
 | SForget (i : ref) (count : N)
 | SGetattr (i : ref) (h : option ref)
-| SSetattr (i : ref) (h : option ref) (valid mode uid gid size : N)
+| SSetattr (i : ref) (h : option ref) (valid mode uid gid size atime ansec mtime mnsec : N)
 | SMkdir (p : ref) (n : name) (mode umask uid gid : N)
 | SMknod (p : ref) (n : name) (mode rdev umask uid gid : N)
 | SCreate (p : ref) (n : name) (mode umask flags fuse_flags uid gid : N)
@@ -676,7 +691,7 @@ Definition resolve (is hs : list N) (q : sreq) : req :=
   | SLookup p n => QLookup (I p) n
   | SForget i c => QForget (I i) c
   | SGetattr i h => QGetattr (I i) (option_map H h)
-  | SSetattr i h v m u g sz => QSetattr (I i) (option_map H h) v m u g sz
+  | SSetattr i h v m u g sz a an mt mn => QSetattr (I i) (option_map H h) v m u g sz a an mt mn
   | SMkdir p n m um u g => QMkdir (I p) n m um u g
   | SMknod p n m r um u g => QMknod (I p) n m r um u g
   | SCreate p n m um f ff u g => QCreate (I p) n m um f ff u g
@@ -796,3 +811,16 @@ Definition hist_bad (cf : cfg) (h : host) (root : N) (qs : list sreq) (os : list
   bad_indices_cf cf 0 (fst (run cf (start h root) qs)) os.
 Definition hist_ok (cf : cfg) (h : host) (root : N) (qs : list sreq) (os : list (reply * creds)) : bool :=
   match hist_bad cf h root qs os with [] => true | _ => false end.
+
+(* ---- what a SETATTR does to atime/mtime, for the comparison with the implementation: the utimens step runs iff ATIME
+   or MTIME is valid; observed classes: unchanged / set to the request's value / set to now *)
+Definition setattr_time_effect (valid atime ansec mtime mnsec : N) : tv * tv :=
+  if has valid FATTR_ATIME || has valid FATTR_MTIME
+  then (time_spec valid FATTR_ATIME_NOW FATTR_ATIME atime ansec, time_spec valid FATTR_MTIME_NOW FATTR_MTIME mtime mnsec)
+  else (TKeep, TKeep).
+Definition tv_eqb (a b : tv) : bool :=
+  match a, b with
+  | TKeep, TKeep => true | TNow, TNow => true
+  | TSet s n, TSet s' n' => (s =? s') && (n =? n')
+  | _, _ => false
+  end.
